@@ -292,7 +292,8 @@ Definition step (s : hstate) (kv : header) : hstate :=
            if usize_max <? n then set_invalid s
            else match h_len s with
                 | Some m => if negb (m =? n) then set_invalid s
-                            else mkh (h_method s) (h_authority s) (h_path s) (h_scheme s) true (h_items s ++ [IH (k, v)]) (h_jar s) (h_cookies_added s) (h_host s) (h_host_conflict s) (Some n) false
+                            else (* same value again: one field line is enough *)
+                              mkh (h_method s) (h_authority s) (h_path s) (h_scheme s) true (h_items s) (h_jar s) (h_cookies_added s) (h_host s) (h_host_conflict s) (Some n) false
                 | None => mkh (h_method s) (h_authority s) (h_path s) (h_scheme s) true (h_items s ++ [IH (k, v)]) (h_jar s) (h_cookies_added s) (h_host s) (h_host_conflict s) (Some n) false
                 end
     else mkh (h_method s) (h_authority s) (h_path s) (h_scheme s) true (h_items s ++ [IH (k, v)]) (h_jar s) (h_cookies_added s) (h_host s) (h_host_conflict s) (h_len s) false.
